@@ -43,7 +43,7 @@ fn value(ty: &DataType, sym: u8, long: bool) -> DataValue {
         DataType::Decimal(_, _) => DataValue::Decimal(rust_decimal::Decimal::from_str(["0", "-1.50", "12345678.90"][sym as usize - 1]).unwrap()),
         DataType::Date => DataValue::Date(risinglight::types::Date::from_str(["1970-01-01", "2024-02-29", "0001-01-01"][sym as usize - 1]).unwrap()),
         DataType::Timestamp => DataValue::Timestamp(risinglight::types::Timestamp::from_str(["1970-01-01 00:00:00", "2024-02-29 23:59:59", "1969-12-31 23:59:59"][sym as usize - 1]).unwrap()),
-        DataType::Interval => DataValue::Interval(risinglight::types::Interval::from_str(["1 day", "-2 months", "1 year 3 days"][sym as usize - 1]).unwrap()),
+        DataType::Interval => DataValue::Interval(risinglight::types::Interval::from_str(["1 day 2 hours 3 seconds", "-2 months", "1 year 3 days 1 second"][sym as usize - 1]).unwrap()),
         DataType::String => {
             let base = ["", "a", "hello world, this is a longer string"][sym as usize - 1];
             DataValue::String(if long && sym == 3 { base.repeat(8).into() } else { base.into() })
